@@ -146,6 +146,78 @@ def run_fixed_index(rec, S):
         rec.finding(R, "F2.f/field-order", "record_field/emit_fields do not keep the first-assignment order the compile-time field indices are taken from", loc=L(COMPILER, (rf or c)["line"]))
 
 
+def run_known_class_receiver(rec, S):
+    R = rec.rule("F2.f-recv", "property_get/property_set are given a class (which enables compile-time field offsets) only where the object on the stack is `self` itself: under `primary.is_self() && trailers.len() == 1`, the `is_self` flag of the first trailer, or the `@field` form")
+    from ..facts import walk_expr
+    fns = compiler_fns(S)
+    n = 0
+    for name, f in fns.items():
+        if name in ("property_get", "property_set"):
+            continue
+        binds = {}
+        for node in walk_expr(f["body"]):
+            if node.get("s") == "let" and node.get("init") is not None and node["pat"].get("p") == "ident":
+                binds.setdefault(node["pat"]["name"], []).append(node["init"])
+        for ev in synq.events(f):
+            if ev.kind != "call" or ev.name not in ("property_get", "property_set") or len(ev.node["args"]) < 2:
+                continue
+            a = ev.node["args"][1]
+            n += 1
+            how = "?"
+            ok = False
+            sa = synq.src(a)
+            if sa == "None":
+                ok, how = True, "None"
+            elif a.get("e") == "path" and a["p"] in binds:
+                inits = binds[a["p"]]
+                oks = []
+                for init in inits:
+                    if init.get("e") == "if":
+                        cond = synq.src(init["cond"])
+                        els = synq.src(init["else"]["stmts"][-1]["e"]) if init.get("else") and init["else"].get("e") == "block" and init["else"]["stmts"] else synq.src(init.get("else"))
+                        c1 = "is_self()" in cond and re.search(r"len\(\) == 1", cond) is not None
+                        c2 = cond.strip("()") == "is_self"
+                        oks.append((c1 or c2) and els == "None")
+                    else:
+                        oks.append(False)
+                ok = bool(oks) and all(oks)
+                how = "bound by " + "; ".join(synq.src(i)[:60] for i in inits)
+            elif "class_attributes" in sa:
+                ok = name in ("instance_access",) or any(c[0] == "arm" and "InstanceAccess" in c[2] for c in ev.ctx)
+                how = "self.class_attributes directly"
+            rec.inst(R, "%s:%s(class=%s)" % (name, ev.name, sa[:30]), ok=ok, loc=L(COMPILER, ev.line), note=how)
+            if not ok:
+                rec.finding(R, "F2.f-recv/%s/%s/%s" % (name, ev.name, re.sub(r"\W+", "_", sa)[:30]), "%s calls %s with a class (%s) although the object whose field is accessed need not be `self`: a compile-time field offset of the enclosing class would be applied to another object" % (name, ev.name, how), loc=L(COMPILER, ev.line), fn=name)
+    rec.floor(R, "property_get/property_set call sites", n, 8)
+    # the `is_self` flag handed to access() holds for the first trailer only
+    m = 0
+    for name, f in fns.items():
+        for ev in synq.events(f):
+            if ev.kind != "call" or ev.name != "access" or len(ev.node["args"]) < 2:
+                continue
+            flag = ev.node["args"][1]
+            if flag.get("e") != "path":
+                continue
+            loops = [c for c in ev.ctx if c[0] in ("for", "while", "loop")]
+            if not loops:
+                continue
+            m += 1
+            loop_line = loops[-1][3]
+            loop_node = None
+            for node in walk_expr(f["body"]):
+                if node.get("e") in ("for", "while", "loop") and node.get("line") == loop_line:
+                    loop_node = node
+            reset = False
+            if loop_node is not None:
+                for node in walk_expr(loop_node["body"]):
+                    if node.get("e") == "assign" and synq.src(node["a"]) == flag["p"] and synq.src(node["b"]) == "false":
+                        reset = True
+            rec.inst(R, "%s: `%s` reset after the first trailer" % (name, flag["p"]), ok=reset, loc=L(COMPILER, ev.line))
+            if not reset:
+                rec.finding(R, "F2.f-recv/%s/flag-not-reset" % name, "%s passes `%s` to access() for every trailer of a chain without clearing it after the first one: `self.a.x` would use the enclosing class's offset for `x` on the object `self.a`" % (name, flag["p"]), loc=L(COMPILER, ev.line), fn=name)
+    rec.floor(R, "trailer loops passing an is_self flag", m, 1)
+
+
 def run_handlers(rec, S, F):
     R = rec.rule("F2.h", "try_ pairs PushHandler with PopHandler on the fall-through exit; every explicit early exit (return with/without value, break, continue) emits the handler-pop guard before its transfer; the number of PopHandlers an exit can emit must not be bounded by a constant while try nesting is unbounded")
     fns = compiler_fns(S)
